@@ -2,12 +2,13 @@
 """For every repaired defect in known_findings.json: revert its fix commit in a scratch copy and run the quick
 check of the properties it belongs to with the generated search only (replay tier off). A check that stays
 green against the revert is decoration. Writes design-notes/revert-sensitivity.txt."""
-import json, subprocess, os, collections
+import json, subprocess, os, collections, sys
+only=set(sys.argv[1:])  # finding ids; empty: all
 root='/verif'
 kf=json.load(open(f'{root}/known_findings.json'))
 by_commit=collections.OrderedDict()
 for f in kf['findings']:
-    if f['status']=='fixed':
+    if f['status']=='fixed' and (not only or f['id'] in only):
         by_commit.setdefault(f['commit'],[]).append((f['id'],f['property']))
 os.makedirs('/root/mut',exist_ok=True)
 lines=[]
@@ -21,4 +22,4 @@ for c,items in by_commit.items():
     for l in out.strip().splitlines():
         lines.append(f"{'+'.join(ids):14s} {l}")
         print(lines[-1],flush=True)
-open(f'{root}/design-notes/revert-sensitivity.txt','w').write('\n'.join(lines)+'\n')
+open(f'{root}/design-notes/revert-sensitivity.txt','a' if only else 'w').write('\n'.join(lines)+'\n')
